@@ -56,6 +56,12 @@ CLAIMED = {
          "CRDT values are abstract: the semilattice laws of Merge (idempotent, commutative, associative) and 'Write is an inflation' are axioms here (for GCounter they are the lemmas proved under C12; for AWORSet/LWWSet they are assumptions, and DESIGN.md section 4 records that AWORSet.Merge violates associativity on reachable states). "
          "NOT covered: broadcast/runBroadcasts/tryConnectPeers (RPC, timers, needBroadcastCount bookkeeping), hence 'eventually reaches every connected peer' (liveness) and 'replicas converge once updates stop' are not decided; Close.",
          "contract-based deductive verification: strict monitor invariants (Owicki-Gries style) over go/ssa, two-state postconditions relative to the lock acquisition (atlock), abstract semilattice axioms, z3/cvc5"),
+ "C19": ("Deductive proof of the state logic of the failure detector: ReadValue's answer is a function of the state getState returned (uninitialised: the section aborts after one polling interval, the only delay; alive: FALSE; anything else: TRUE) and reading never writes the state (strict monitor on the state lock); "
+         "every iteration of the polling loop records failed whenever the dial fails, the RPC reports an error or the timeout fires, and otherwise records exactly the monitor's reply (cut-point obligations at every setState call); "
+         "Monitor.RunArchetype records alive before the archetype runs, finished after a normal end, failed after an error, and its deferred epilogue records failed and returns an error exactly when the archetype panicked (recover modelled); IsAlive answers with the recorded state or an error for an unknown archetype.",
+         "The monitor's table is a ghost map (hashmap.HashMap is not modelled; setState/getState of Monitor are trusted against it); net, net/rpc and time are external: dial/RPC results are arbitrary, the reply object shared with the RPC machinery is not tracked. "
+         "NOT covered: the timing claims ('within a bounded number of polling intervals', 'keeps doing so', 'from the first successful poll on') as temporal statements — what is proved is the per-poll transition they follow from (DESIGN.md section 3 (C19)); monitor shutdown/ListenAndServe/Close, SingleFailureDetector.Close and the IncMap wrapper.",
+         "contract-based deductive verification: WP over go/ssa, strict monitor, cut-point obligations with call arguments, return-point assertions over locals, recover/panicking model, z3/cvc5"),
  "C17": ("Deductive proof, by a monitor invariant on runStateLock (thread-modular: every lock region re-establishes it, so every interleaving of Stop/Run regions does), that at most one exit request is ever sent (so the send under the lock cannot block), awaitExit is closed at most once and only when the context leaves or skips the running phase, a second Run is refused, and that cleanupResources calls Close on every registered resource.",
          "sync.Mutex gives mutual exclusion; channels are modelled by ghost capacity / total-sends / closed state; requestExit is written only by the running Run (declared 'keeps'); Stop's postcondition closed(awaitExit) rests on the declared (and checked at every send site of the package) fact that awaitExit is never sent on; termination of the wait in Stop (liveness) and map-resource element Close (IncMap/HashMap) are NOT covered.",
          "contract-based deductive verification: monitor invariants (Owicki-Gries style) over go/ssa, ghost channel state, z3/cvc5"),
